@@ -17,7 +17,6 @@ import multiprocessing
 import random
 import re
 import struct
-import sys
 import time
 import warnings
 from datetime import datetime, timedelta, timezone
@@ -911,14 +910,6 @@ def unusual_hashed(ks):
 
 REV_SUBJECTS = [('doc:1', 0x00), ('doc:2', 0x00), ('text:3', 0x01), ('none', 0x40), ('none', 0x02), ('uid1', 0x10), ('uid2', 0x13), ('ua', 0x12),
                 ('key', 0x1f), ('subenc', 0x18), ('key', 0x20), ('subenc', 0x28), ('uid2', 0x30), ('uid1', 0x16)]
-
-
-def reverse_cases(tier, rnd):
-    names = None
-    out = []
-    for sname, st in REV_SUBJECTS:
-        out.append({'subject': sname, 'sigtype': st, 'extra': '*'})
-    return out
 
 
 def run_reverse(args):
